@@ -304,7 +304,7 @@ class Model:
         self.last_ncand = ncand
         return found
 
-    def run(self, main, defines=(), dirs=(), forced=()):
+    def run(self, main, defines=(), dirs=(), forced=(), cwd=None):
         """main: absolute path of the compiled file.  Returns (used, events)
         used: abspath -> set(lines); events: list of tuples."""
         self.used = {}
@@ -323,7 +323,12 @@ class Model:
             else:
                 self.macros.setdefault(n, b)
         for inc in forced:
-            p = self.resolve_include("quote", inc, os.path.dirname(main), self.dirs)
+            # a forced include is looked up in the compiler's working directory first
+            p = None
+            if cwd is not None and self.exists(os.path.normpath(os.path.join(cwd, inc))):
+                p = os.path.normpath(os.path.join(cwd, inc))
+            if p is None:
+                p = self.resolve_include("quote", inc, os.path.dirname(main), self.dirs)
             if p is None:
                 self.events.append(("missing-forced", inc))
                 continue
